@@ -249,7 +249,7 @@ def run(run: core.Run) -> int:
     if object_like:          # targeted search: more schedules in which the threads' graphs / parsers meet
         n_sched += 14
         n_free += 10
-    pools, refs, stats = c11.build_pools(run, jobs, n_prog)
+    pools, refs, stats = c11.build_pools(run, jobs, n_prog, light=True)
     # compiler-only scenario: deep inputs next to small ones
     deep_cases = [gen_deep_case(run.rng, i) for i in range(n_deep)]
     co_calls = {c11.spec_key(c): c for dc in deep_cases for sp in dc["threads"] for c in sp["calls"]}
